@@ -40,6 +40,7 @@ type ModelSM struct {
 	lastIndexSinceRestore uint64
 	Restores              int
 	busy                  int // calls in flight (for the "install racing apply" probe)
+	applying              int // replicated Apply calls in flight
 }
 
 const chainInit = uint64(1469598103934665603)
@@ -117,7 +118,9 @@ func (m *ModelSM) Apply(op *raft.Operation) interface{} {
 		}
 		return res
 	}
+	m.applying++
 	m.pause(m.c.Cfg.ApplyDelayUs)
+	m.applying--
 	if simrt.Dead() {
 		return nil
 	}
